@@ -139,14 +139,30 @@ func (b *BinaryExpression) SQL() string {
 	if b == nil {
 		return ""
 	}
-	left := exprSQL(b.Left)
-	right := exprSQL(b.Right)
 	op := b.Operator
 	if b.CustomOp != nil {
 		op = b.CustomOp.String()
 	}
 
 	upperOp := strings.ToUpper(op)
+
+	// Parenthesise operands that bind less tightly than this operator (and
+	// right operands of equal precedence: the binary levels associate to the
+	// left), so that re-parsing the text gives this tree again.
+	left := exprSQL(b.Left)
+	right := exprSQL(b.Right)
+	if prec := binaryPrecedence(upperOp); prec > 0 {
+		if l, ok := b.Left.(*BinaryExpression); ok && l != nil && !l.Not {
+			if lp := binaryPrecedence(strings.ToUpper(l.Operator)); lp > 0 && lp < prec {
+				left = "(" + left + ")"
+			}
+		}
+		if r, ok := b.Right.(*BinaryExpression); ok && r != nil && !r.Not {
+			if rp := binaryPrecedence(strings.ToUpper(r.Operator)); rp > 0 && rp <= prec {
+				right = "(" + right + ")"
+			}
+		}
+	}
 
 	// Handle IS NULL / IS NOT NULL (right side is NULL literal)
 	if upperOp == "IS NULL" || upperOp == "IS NOT NULL" {
@@ -173,6 +189,27 @@ func (b *BinaryExpression) SQL() string {
 	}
 
 	return fmt.Sprintf("%s %s %s", left, op, right)
+}
+
+// binaryPrecedence returns the binding strength of the plain binary operators
+// of the expression ladder (OR < AND < comparison < || < + - < * / %), 0 for
+// anything else.
+func binaryPrecedence(upperOp string) int {
+	switch upperOp {
+	case "OR":
+		return 1
+	case "AND":
+		return 2
+	case "=", "<>", "!=", "<", "<=", ">", ">=":
+		return 3
+	case "||":
+		return 4
+	case "+", "-":
+		return 5
+	case "*", "/", "%":
+		return 6
+	}
+	return 0
 }
 
 func (u *UnaryExpression) SQL() string {
